@@ -11,6 +11,7 @@ is filled before any instruction is fed (`declare` in `Asm.assemble`), so a
 definition may follow its use.
 -/
 import EtkVerif.Asm.ExprLemmas
+import EtkVerif.Asm.FullTextPest
 namespace EtkVerif.C11
 open Asm
 
@@ -36,5 +37,23 @@ theorem C11_substitution (fuel : Nat) (ctx : Ctx) (vs : List (String × Int)) (e
 theorem C11_fuel (f : Nat) (ctx : Ctx) (e : Expr) (r : Except EvErr Int)
     (h : eval f ctx e = r) (hr : r ≠ .error (.recursionLimit "fuel")) : eval (f + 1) ctx e = r :=
   eval_fuel_mono f ctx e r h hr
+
+open Asm.Layout Asm.FullText in
+/-- the TEXT of an expression-macro definition `%def name(params)` / body / `%end` (blanks and line ends as the grammar
+allows; the body any operand expression with `$variables`, calls, literals, labels, parentheses) parses to the
+definition node with exactly the declared name, the parameter list in order and the body's expression -/
+theorem C11_text (lead g0 t1 l2 t2 l3 : List Nat) (d : Decl) (crlf1 crlf2 : Bool) (s : XSeq) (term : Layout.Term)
+    (hlead : Layout.IsBlanks lead) (hg0 : 1 ≤ g0.length ∧ ExprText.IsBlanks g0) (hd : d.WF)
+    (ht1 : Layout.IsBlanks t1) (hl2 : Layout.IsBlanks l2) (hs : s.WF) (ht2 : Layout.IsBlanks t2) (hl3 : Layout.IsBlanks l3)
+    (hterm : term.WF) :
+    parseAsm (FullText.render [] [⟨lead, .exprDef g0 d t1 crlf1 l2 s t2 crlf2 l3, term⟩]) =
+      .ok [.op (.exprDef (Asm.strOf d.name) (d.params.map (fun x => Asm.strOf x.2.1)) s.expr)] := by
+  have h : FullText.WF [] [⟨lead, .exprDef g0 d t1 crlf1 l2 s t2 crlf2 l3, term⟩] := by
+    refine ⟨(by intro b hb; cases hb), ?_, trivial⟩
+    intro x hx
+    simp only [List.mem_singleton] at hx
+    subst hx
+    exact ⟨hlead, ⟨hg0.1, hg0.2, hd, ht1, hl2, hs, ht2, hl3⟩, hterm⟩
+  simpa [FullText.Stmt.node] using parse_full [] _ h
 
 end EtkVerif.C11
